@@ -288,8 +288,11 @@ def rule_R3(ctx, fd, fp):
 
 def run(ctx):
     ctx.rule("R0", "both configurations build and are analysed: default features and --no-default-features")
-    fd = ctx.facts("default")
-    fp = ctx.facts("plain")
+    # new methods of the two data models (src/plain_model.rs / the generated model + proto_ext.rs) stay calls: they are compared as model methods (R2/R3), not as part
+    # of the shared code that uses them
+    model = lambda pth: bool(re.match(r"^<?(impl )?prometheus::(proto|proto_ext|plain_model)::", pth)) or "prometheus::proto::" in pth.split(" as ")[0]   # noqa: E731
+    fd = ctx.facts("default", keep_helper=model, variant="#models-kept")
+    fp = ctx.facts("plain", keep_helper=model, variant="#models-kept")
     ctx.ob("R0", "both-configs-typecheck", "protobuf" in fd.features and "protobuf" not in fp.features, "fact bases of both feature configurations extracted (features %s / %s)" % (fd.features, fp.features))
     ctx.run_rule("R1", lambda c: rule_R1(c, fd, fp))
     ctx.run_rule("R2", lambda c: rule_R2(c, fd, fp))
